@@ -47,7 +47,7 @@ def _worker(args):
         except Exception:
             agg['harness_errors'].append((i, traceback.format_exc(limit=8)))
             continue
-        fold(agg, prop, i, seed, case, res, known)
+        fold(agg, prop, i, seed, case, res, known, bool((opts or {}).get('digests')))
     agg['worker_s'] = time.time() - t_start
     faulthandler.cancel_dump_traceback_later()
     return agg
@@ -62,7 +62,7 @@ def new_agg():
             'digests': {}}
 
 
-def fold(agg, prop, i, seed, case, res, known=()):
+def fold(agg, prop, i, seed, case, res, known=(), keep_digests=False):
     agg['evaluations'] += 1
     agg['executions'] += res.get('executions', 1)
     agg['sim_seconds'] += res.get('sim_seconds', 0.0)
@@ -92,7 +92,7 @@ def fold(agg, prop, i, seed, case, res, known=()):
             agg['other'][key] = agg['other'].get(key, 0) + 1
     for k, n in res.get('known_hits', {}).items():
         agg['known_hits'][k] = agg['known_hits'].get(k, 0) + n
-    if 'digest' in res:
+    if 'digest' in res and (i < 64 or keep_digests):
         agg['digests'][i] = res['digest']
 
 
